@@ -78,6 +78,8 @@ class Ex:
         self.ops = None
         self.stop_joins = False
         self.guard_reads = []
+        self.walk = None
+        self.errors = []
 
     def fn(self, name):
         return find_func(self.mod, name, self.cls)
@@ -251,6 +253,10 @@ class Ex:
             if [src(s) for s in rest] != ["self.stop()"]:
                 fail(f"{self.cls}._monitor: must end with self.stop()", fn)
             self.mark("stop", rest[0].lineno)
+        self.mark("ret", fn.name)
+        calls = [n for n in ast.walk(loop) if isinstance(n, ast.Call) and src(n.func) == "self." + self.sp["process"]]
+        if len(calls) != 1:
+            fail(f"{self.cls}._monitor: expected exactly one call of {self.sp['process']} in the loop", loop)
         # snapshot statement: first statement of the loop body that is not logging
         snap = None
         for st in lbody:
@@ -263,16 +269,22 @@ class Ex:
             fail(f"{self.cls}._monitor: no snapshot statement at the head of the loop body", loop)
         copies = [n for n in ast.walk(snap.value)
                   if isinstance(n, ast.Call) and src(n) in (f"dict({TR})", f"list({TR}.keys())")]
-        if len(copies) != 1:
-            fail(f"{self.cls}._monitor: snapshot statement does not copy {TR} exactly once: {src(snap)!r}", snap)
-        c = copies[0]
-        if snap.lineno != snap.end_lineno and c.lineno == snap.lineno:
-            fail(f"{self.cls}._monitor: snapshot layout not supported", snap)
-        self.mark("snap", c.lineno)
-        calls = [n for n in ast.walk(loop) if isinstance(n, ast.Call) and src(n.func) == "self." + self.sp["process"]]
-        if len(calls) != 1:
-            fail(f"{self.cls}._monitor: expected exactly one call of {self.sp['process']} in the loop", loop)
-        self.mark("ret", fn.name)
+        inside = {id(n) for c in copies for n in ast.walk(c)}
+        bare = [n for n in ast.walk(snap.value)
+                if isinstance(n, ast.Attribute) and src(n) == TR and id(n) not in inside]
+        if len(copies) == 1 and not bare:
+            self.walk = "Snapshot"
+            c = copies[0]
+            if snap.lineno != snap.end_lineno and c.lineno == snap.lineno:
+                fail(f"{self.cls}._monitor: snapshot layout not supported", snap)
+            self.mark("snap", c.lineno)
+        elif not copies and len(bare) == 1 and snap.lineno == snap.end_lineno:
+            # the status collection is handed the live pending map (Model/MonWalk.v, variant Live)
+            self.walk = "Live"
+            self.mark("snap", snap.lineno)
+        else:
+            fail(f"{self.cls}._monitor: snapshot statement neither copies {TR} exactly once nor walks it live: "
+                 f"{src(snap)!r}", snap)
 
     # ---- process status: pop lines ---------------------------------------
     def tr_process(self, pins):
@@ -380,14 +392,27 @@ class Ex:
 
     newpins: dict = {}
 
+    def attempt(self, f, *a):
+        """Run one part of the translation; a rejected shape is recorded, the other parts (and their
+        scheduling points) are still extracted so that the search on the real code can run."""
+        try:
+            f(*a)
+        except TranslateError as e:
+            self.errors.append(str(e))
+
     def run(self, pins):
-        self.tr_monitor()          # decides self.locked
-        self.tr_start()
-        self.tr_stop()
-        self.tr_process(pins)
-        self.tr_submit(pins)
+        self.attempt(self.tr_monitor)          # decides self.locked
+        self.attempt(self.tr_start)
+        self.attempt(self.tr_stop)
+        self.attempt(self.tr_process, pins)
+        self.attempt(self.tr_submit, pins)
         if self.sp["sub"]:
-            self.tr_subthread(pins)
+            self.attempt(self.tr_subthread, pins)
+        self.attempt(self.final_checks)
+        self.lines.setdefault("ret", ["_monitor"] + (["_submission_thread"] if self.sp["sub"] else []))
+        return self
+
+    def final_checks(self):
         if self.sp["queue"] and "queue" not in self.guard_reads:
             fail(f"{self.cls}: monitor guard does not read the queue")
         # executors that hand jobs to a JobArrayer must keep the monitor alive while the arrayer holds
@@ -395,7 +420,6 @@ class Ex:
         # arrayed jobs, which this check could not see)
         if self.sp["single"] and "arrayer" not in self.guard_reads:
             fail(f"{self.cls}: monitor guard no longer reads self.arrayer.num_pending")
-        return self
 
 
 def cq_ops(ops):
@@ -567,30 +591,43 @@ def translate(sources: dict | None = None, pins="file"):
         pins = json.loads(PINS_FILE.read_text()) if PINS_FILE.exists() else {}
     Ex.newpins = {}
     info = {}
+    errors = []
     head = ["(* Generated by translate/tr_monitor.py from redun/executors/{docker,aws_batch,k8s,gcp_batch,aws_glue}.py"
             " and redun/job_array.py - do not edit. *)",
             "From Coq Require Import List Bool.",
-            "From RV Require Import Model.Monitor Model.ArrCounter Model.ArrLife Model.GlueWaves.",
+            "From RV Require Import Model.Monitor Model.ArrCounter Model.ArrLife Model.GlueWaves Model.MonWalk.",
             "Import ListNotations.", ""]
     out = list(head)
     tie = [head[0], "From Coq Require Import List Bool.",
-           "From RV Require Import Model.Monitor Model.ArrCounter Model.ArrLife Model.GlueWaves Gen.C10Gen.",
+           "From RV Require Import Model.Monitor Model.ArrCounter Model.ArrLife Model.GlueWaves Model.MonWalk Gen.C10Gen.",
            "Import ListNotations.", ""]
     for key in SPECS:
         e = Ex(key, (sources or {}).get(key)).run(pins)
         variant = "fixed" if e.locked else "shipped"
-        out.append(f"Definition gen_{key} : cfg := {cq_cfg(e)}.")
-        target = "fixed_cfg" if e.locked else f"shipped_{key}"
-        tie.append(f"Lemma C10_tie_{key} : gen_{key} = {target}.")
-        tie.append("Proof. reflexivity. Qed.")
+        errors += [f"{key}: {m}" for m in e.errors]
+        if not e.errors:
+            out.append(f"Definition gen_{key} : cfg := {cq_cfg(e)}.")
+            target = "fixed_cfg" if e.locked else f"shipped_{key}"
+            tie.append(f"Lemma C10_tie_{key} : gen_{key} = {target}.")
+            tie.append("Proof. reflexivity. Qed.")
+            out.append(f"Definition gen_walk_{key} : walk_source := {e.walk}.")
+            tie.append(f"Lemma C10_tie_walk_{key} : gen_walk_{key} = {e.walk}.")
+            tie.append("Proof. reflexivity. Qed.")
         info[key] = dict(variant=variant, lines=e.lines, file=e.sp["file"], cls=e.cls, locked=e.locked,
-                         stop_joins=e.stop_joins, guard_reads=e.guard_reads, ops=e.ops)
-    cnt = translate_counter((sources or {}).get("job_array"))
+                         stop_joins=e.stop_joins, guard_reads=e.guard_reads, ops=e.ops, walk=e.walk,
+                         errors=list(e.errors))
+    try:
+        cnt = translate_counter((sources or {}).get("job_array"))
+        life = translate_lifecycle((sources or {}).get("job_array"))
+    except TranslateError as e:
+        # job_array.py not recognised: arrayer-mode search falls back to the shipped discipline's scheduling points
+        errors.append(f"job_array: {e}")
+        cnt = dict(locked=True, file="redun/job_array.py", lines=dict(idle=[], dec=[]), unrecognised=True)
+        life = "ClearInStart"
     out.append(f"Definition gen_counter : acfg := {{| counter_locked := {'true' if cnt['locked'] else 'false'} |}}.")
     tie.append(f"Lemma C10_tie_counter : gen_counter = {'arr_locked' if cnt['locked'] else 'arr_unlocked'}.")
     tie.append("Proof. reflexivity. Qed.")
     info["_counter"] = cnt
-    life = translate_lifecycle((sources or {}).get("job_array"))
     out.append(f"Definition gen_life : clear_variant := {life}.")
     tie.append(f"Lemma C10_tie_life : gen_life = {life}.")
     tie.append("Proof. reflexivity. Qed.")
@@ -598,7 +635,7 @@ def translate(sources: dict | None = None, pins="file"):
     # Glue _start: are the thread-alive checks reached when is_running is already true?
     gops = info["aws_glue"]["ops"]
     gv = None
-    if not info["aws_glue"]["locked"]:
+    if not info["aws_glue"]["locked"] and not info["aws_glue"]["errors"]:
         gv = "AlwaysCheck" if gops == GLUE_ALWAYS else "EarlyReturn" if gops == GLUE_EARLY else None
     if gv:
         out.append(f"Definition gen_glue_start : start_variant := {gv}.")
@@ -608,6 +645,7 @@ def translate(sources: dict | None = None, pins="file"):
     out.append("")
     tie.append("")
     info["_tie_text"] = "\n".join(tie)
+    info["_errors"] = errors
     return "\n".join(out), info
 
 
